@@ -1,14 +1,20 @@
 #!/usr/bin/env python3
-"""markdown table of /verif/seeded/*: which check catches which seeded change, with the violation keys"""
+"""markdown table of /verif/seeded/*: which check catches which seeded change, with the violation keys
+(latest result: tools/reverify.py's "reverification" if present, else the result recorded when the change was stored)"""
 import json, glob, os
 rows = []
 for d in sorted(glob.glob('/verif/seeded/*/')):
     m = json.load(open(d + 'meta.json'))
-    v = m.get('verification', {})
+    v = m.get('reverification') or {}
+    if not v.get('checks'):
+        v = m.get('verification', {})
     name = os.path.basename(d.rstrip('/'))
     for prop, c in v.get('checks', {}).items():
         keys = ', '.join(k.split(':', 1)[1] for k in c['keys'][:2]) or '-'
-        rows.append(f"| {name} | {(m.get('summary') or '')[:110].replace('|','/')} | {(m.get('needs') or '')[:110].replace('|','/')} | {prop} {'caught' if c['rc']==1 else 'MISSED'} ({c['wall_s']} s) | `{keys[:120]}` |")
+        verdict = 'caught' if c['rc'] == 1 else 'MISSED'
+        if m.get('neutralised_by_repair') and c['rc'] != 1:
+            verdict = f"equivalent since repair {m['neutralised_by_repair']['commit']} (caught before)"
+        rows.append(f"| {name} | {(m.get('summary') or '')[:110].replace('|','/')} | {(m.get('needs') or '')[:110].replace('|','/')} | {prop} {verdict} | `{keys[:120]}` |")
 print('| seeded change | what was changed | needs, to manifest | quick check | first violation keys |')
 print('|---|---|---|---|---|')
 print('\n'.join(rows))
